@@ -117,7 +117,7 @@ noncomputable def exInσ : Net ℝ :=
 noncomputable def exInOb : NObs ℝ := ⟨.azimuth, 0, 0, 1, 0, 0⟩
 
 theorem exIn_removed : (Input.removeInconsistency exIn).points = [⟨true, 0, 0, 0⟩, ⟨true, 0, -100, 0⟩] := by
-  have hc : Input.consistent exIn.cs exIn.leftHandedAngles = false := rfl
+  have hc : Input.consistent CS.EN true = false := rfl
   simp [Input.removeInconsistency, hc, exIn, Input.changeYSigns]
 
 theorem exIn_file : FileCoords exIn exInE exInN := by
